@@ -950,6 +950,10 @@ DOMAIN = {"sqrt": (">= 0", "nonneg"), "ln": ("> 0", "positive"), "log": ("> 0", 
 
 # (function key suffix, callee, normalised argument) -> why the argument is inside the domain on the property's inputs
 DOM_TABLE = {
+    ("<cam16::ucs_jab::Cam16UcsJab<T> as color_difference::ImprovedDeltaE>::improved_delta_e", "powf", "self.distance_squared(other)"):
+        ("a squared Euclidean distance: sum of squares, >= 0", ["self.distance_squared(other)"]),
+    ("<cam16::ucs_jmh::Cam16UcsJmh<T> as FromColorUnclamped<cam16::partial::cam16_jmh::Cam16Jmh<T>>>", "ln", "(+ (from_f64(0.0228) * val.colorfulness) + one())"):
+        ("1 + 0.0228 M with colourfulness M >= 0: >= 1", ["(+ (from_f64(0.0228) * val.colorfulness) + one())"]),
     ("blend::blend::soft_light_blend", "sqrt", "dst"):
         ("backdrop component: the property's blend inputs are in [0, 1]; the arm is selected only for 4*dst > 1 (lazy_select!)",
          ["dst"]),
@@ -1025,10 +1029,25 @@ DOM_TABLE = {
 }
 
 
+# DOM is closed-world too: every file is scanned except the categories below (each with its reason)
+DOM_NOT_SCANNED = {
+    "palette/src/macros/random.rs": "arguments are rand variates >= 0 (ranges decided by C19's STD / VOL rules)",
+    "palette/src/random_sampling/cone.rs": "arguments are rand variates >= 0 (C19 VOL)",
+    "palette/src/encoding/adobe.rs": "transfer function of the component itself: non-negative on the nominal range [0, 1] (the property's inputs)",
+    "palette/src/encoding/gamma.rs": "transfer function of the component itself: non-negative on the nominal range",
+    "palette/src/encoding/p3.rs": "transfer function of the component itself: non-negative on the nominal range",
+    "palette/src/encoding/prophoto.rs": "power arm selected above the knee only (lazy_select!): argument > 0 (arms decided by C05)",
+    "palette/src/encoding/rec_standards.rs": "power arm selected above the knee only: argument > 0 (C05)",
+    "palette/src/encoding/srgb.rs": "power arm selected above the knee only: argument > 0 (C05)",
+}
+
+
 def dom_sites(F):
     for b in F.bodies:
-        if b["file"] not in ANCHORED:
+        if b["file"] in NOT_SCANNED or b["file"] in DOM_NOT_SCANNED or not b["file"].startswith("palette/src/"):
             continue
+        if b["path"].startswith("num::wide::<impl num::"):
+            continue  # the operator table of the SIMD types (`impl Sqrt for f32x4 { .. }`), like the f32/f64 one below
         if "::test" in b["path"] or "::tests::" in b["path"] or b["path"].endswith("::test"):
             continue
         if re.match(r"^<(f32|f64) as num::", b["path"]):
@@ -1094,7 +1113,7 @@ def check_domains(F, rep):
         if hit not in used:
             rep.fail("DOM-TABLE", "%s: %s(%s)" % hit, "reviewed table entry matches no call site any more (the code changed: re-review)")
     rep.ob("DOM", "partial-function call sites", True, "%d constant, %d inside the domain by shape, %d justified in the reviewed table" % (n_const, n_shape, n_table))
-    rep.floor("sqrt/ln/powf/acos/asin call sites in the anchored files", n_const + n_shape + n_table + n_open, 36)
+    rep.floor("sqrt/ln/powf/acos/asin call sites", n_const + n_shape + n_table + n_open, 42)
 
 
 def check_panics(F, rep):
